@@ -341,3 +341,6 @@ def run_case(cfg):
           "traces": int(x.size),
           "sample": {"cfg": cfg, "exp_interval": [mn, mx], "alphabet_size": int(x.size),
                      "distinct_exponents": int(len(exps))}}
+
+# (appended: sub-lattices added after the seeded waves; kept out of the original RULE text for readability)
+RULE = RULE + '; plus: use_stochastic_rounding=True in the inference phase; cases preceded by the construction and use of other po2 quantizers (quadratic approximation, other max_value, neighbouring widths), judged clause by clause and against the plain object; thorough: complete float32 sweeps'
